@@ -13,9 +13,11 @@ from sklearn.base import BaseEstimator, ClassifierMixin
 from sklearn.model_selection import KFold as RealKFold
 
 from sim.core import EndRun, Violation, close
+from sim import seams
 from sim.seams import rebind
 
 PROP = "C19"
+FORKS = True      # snapshot / restore events (core.Ctx.maybe_fork)
 LEVEL = "exploration"
 RULE = (
     "seeded interleavings (40-260 moves) of the two parties with sticky phases (plus, index-derived, every interleaving of 6 move kinds "
@@ -180,7 +182,8 @@ class Harness:
         class KFoldRec(RealKFold):
             def split(self, X, y=None, groups=None):
                 for tr, te in super().split(X, y, groups):
-                    harness.splits.append((tr.copy(), te.copy(), len(X)))
+                    if not seams.PAUSED[0]:
+                        harness.splits.append((tr.copy(), te.copy(), len(X)))
                     yield tr, te
 
         self.kfold = KFoldRec
@@ -298,6 +301,7 @@ def _run(case, ctx, lifecycle=False):
         refused_states = set()
         for t, (kind, rows) in enumerate(case["events"]):
             ctx.step = t
+            det = ctx.maybe_fork(det)
             is_update = kind.startswith("update")
             snap = _snapshot(det)
             pstate = f"waiting({len(odata)})" if waiting else "idle"
